@@ -251,6 +251,29 @@ package server
 //@   loop 0 invariant okg && spec_hasLSP(l, g) ==> hadg && l.lsps[g] == eg && eg.lspdu != nil && eg.lspdu.RemainingLifetime <= lifeg && (eg.lspdu.RemainingLifetime == lifeg || eg.lspdu.RemainingLifetime >= 1)
 //@   ensures okg && spec_hasLSP(l, g) ==> hadg && l.lsps[g] == eg && eg.lspdu.RemainingLifetime <= lifeg && (eg.lspdu.RemainingLifetime == lifeg || eg.lspdu.RemainingLifetime >= 1)
 
+// A received PSNP (ISO 10589 7.3.17) only acknowledges: it adds and removes no
+// LSP, swaps no stored copy, sets no flag and touches no flag other than SRM of
+// the interface it came in on. Stated for an arbitrary LSP ID g and interface i,
+// assuming that no two entries share a flag map (newLSDBEntry/newEmptyLSDBEntry
+// make fresh ones).
+//@ contract (*lsdb).processPSNP
+//@   props C32
+//@   nosafety
+//@   requires l != nil && psnp != nil && l.lsps != nil && from != nil
+//@   logical g packet.LSPID
+//@   logical i *netIfa
+//@   old hadg bool = spec_hasLSP(l, g)
+//@   old eg *lsdbEntry = l.lsps[g]
+//@   old okg bool = l.lsps[g] != nil && l.lsps[g].lspdu != nil && l.lsps[g].ssnFlags != nil && l.lsps[g].srmFlags != nil && verif_mapid(l.lsps[g].ssnFlags) != verif_mapid(l.lsps[g].srmFlags) && all(e *lsdbEntry, e == nil || e == l.lsps[g] || (verif_mapid(e.srmFlags) != verif_mapid(l.lsps[g].ssnFlags) && verif_mapid(e.srmFlags) != verif_mapid(l.lsps[g].srmFlags)))
+//@   old dg *packet.LSPDU = l.lsps[g].lspdu
+//@   old seqg uint32 = ite(l.lsps[g] != nil && l.lsps[g].lspdu != nil, l.lsps[g].lspdu.SequenceNumber, 0)
+//@   old ssng bool = l.lsps[g] != nil && spec_ssn(l.lsps[g], i)
+//@   old srmg bool = l.lsps[g] != nil && spec_srm(l.lsps[g], i)
+//@   loop 0 invariant spec_hasLSP(l, g) == hadg && l.lsps[g] == eg
+//@   loop 0 invariant okg ==> eg.lspdu == dg && dg.SequenceNumber == seqg && spec_ssn(eg, i) == ssng && (spec_srm(eg, i) ==> srmg) && (i != from ==> spec_srm(eg, i) == srmg)
+//@   ensures spec_hasLSP(l, g) == hadg && l.lsps[g] == eg
+//@   ensures okg ==> eg.lspdu == dg && dg.SequenceNumber == seqg && spec_ssn(eg, i) == ssng && (spec_srm(eg, i) ==> srmg) && (i != from ==> spec_srm(eg, i) == srmg)
+
 // The local LSP's sequence number grows by one per generation and is never 0.
 //@ contract (*Server).nextL2SequencenNumber
 //@   props C32
